@@ -506,11 +506,27 @@ def run_checkout_state(ctx, n):
                 with open(p, "wb") as f:
                     f.write(b"user-file-%d" % i)
             spec["/".join(k)] = {"available": available, "foreign_file_present": foreign}
-        case = {"checkout_with_state": spec, "link": odb.cache_types[0]}
+        update_meta = rng.random() < 0.5
+        case = {"checkout_with_state": spec, "link": odb.cache_types[0], "update_meta": update_meta}
         try:
-            k1, _ = safe_call(lambda: apply(compare(None, idx), ws, fs, update_meta=False, storage="cache", state=state, onerror=lambda *a: None))
+            k1, _ = safe_call(lambda: apply(compare(None, idx), ws, fs, update_meta=update_meta, storage="cache", state=state, onerror=lambda *a: None))
             ctx.case(case)
-            ctx.count("checkout_state:link=%s" % odb.cache_types[0])
+            ctx.count("checkout_state:link=%s update_meta=%s" % (odb.cache_types[0], update_meta))
+            if update_meta and k1 == "ok":
+                # the metadata the checkout wrote back into the index is what update() later carries hashes over by
+                from dvc_data.index import build as ibuild
+                from dvc_data.index.update import update as iupdate
+
+                k2, new = safe_call(lambda: ibuild(ws, fs))
+                if k2 == "ok":
+                    k3, _ = safe_call(lambda: iupdate(new, idx))
+                    for key, e in (list(new.iteritems()) if k3 == "ok" else []):
+                        p = os.path.join(ws, *key)
+                        if e.hash_info and e.hash_info.value and os.path.isfile(p):
+                            cur = md5hex(open(p, "rb").read())
+                            ctx.oracle(e.hash_info.value == cur, case,
+                                       {"why": "update() after an index checkout carried a hash over to a path whose bytes are not the entry's (the checkout had not created that file)",
+                                        "path": "/".join(key), "carried": e.hash_info.value, "current": cur})
             for r, _ds, fns in os.walk(ws):
                 for fn in fns:
                     p = os.path.join(r, fn)
